@@ -2694,20 +2694,10 @@ void psX509FreeCert(psX509Cert_t *cert)
             psFree(curr->uniqueSubjectId, pool);
         }
 
-# ifdef USE_ROT_ECC
-        if (curr->pubKeyAlgorithm == OID_ECDSA_KEY_ALG)
-        {
-            psFree(curr->tbsCertStart, pool);
-        }
-# endif
-# ifdef USE_ROT_RSA
-        if (curr->pubKeyAlgorithm == OID_RSA_KEY_ALG)
-        {
-            psFree(curr->tbsCertStart, pool);
-        }
-# endif
-# if defined(USE_CL_RSA) && defined(USE_PKCS1_PSS)
-        if (curr->pubKeyAlgorithm == OID_RSASSA_PSS)
+# if defined(USE_ED25519) || defined(USE_ROT_ECC) || defined(USE_ROT_RSA) || (defined(USE_CL_RSA) && defined(USE_PKCS1_PSS))
+        /* The TBS is buffered when the algorithm that *signed* this cert
+           needs it, whatever the type of the key the cert carries. */
+        if (curr->tbsCertStart)
         {
             psFree(curr->tbsCertStart, pool);
         }
@@ -2731,7 +2721,6 @@ void psX509FreeCert(psX509Cert_t *cert)
 
 #  ifdef USE_ED25519
             case OID_ED25519_KEY_ALG:
-                psFree(curr->tbsCertStart, pool);
                 break;
 #  endif
 
